@@ -801,6 +801,9 @@ def poll_shape(repo):
             if e[0] == 'path' and e[1] in (['true'], ['false']): return e[1][0] == 'true'
             if e[0] == 'path' and len(e[1]) == 1 and e[1][0] in env: return env[e[1][0]]
             if e[0] == 'path' and e[1] == ['R']: return Rval
+            if e[0] == 'not':
+                v = val(e[1])
+                return (not v) if isinstance(v, bool) else None
             if is_attempt_call(e):
                 if oi[0] >= len(oracle): raise TErr('poll: more attempts than the analysis allows')
                 ok = oracle[oi[0]]; oi[0] += 1; ev.append('PAttempt'); return ('attempt', ok)
